@@ -11,6 +11,12 @@ import numpy as np
 from . import common as C
 
 PID = 'C08'
+
+
+def translate():
+    from translate import conjugates as T
+    return {'Gen/Conjugates.v': T.translate()}
+
 SHARD_SIZE = 60
 RULE = ('random functional expression trees (depth 0..3 quick, 0..4 thorough) over 17 node classes '
         '(LpNorm p=1,2,inf, IndicatorLpUnitBall, L2NormSquared, Constant/Zero, IndicatorZero, Huber, '
@@ -33,10 +39,15 @@ ASSUMPTIONS = [
     'RightVectorMult entries <> 0, QuadraticPerturb a >= 0, Huber gamma > 0, QuadraticForm scaling a > 0, sigma > 0',
 ]
 TRUSTED = [
-    'C08/Model.v hand-written model of the convex_conj / proximal / gradient / _call bodies, tied to /repo by the '
-    'in-Coq correspondence on random trees (class tree of the conjugates is compared, not only values)',
+    'translate/conjugates.py (reusing the grammar of translate/prox_bindings.py): fail-closed ast -> Gen/Conjugates.v; '
+    'C08/ConjTables.v interpreter of those bodies (meaning of attribute reads, class constructors and operator overloads)',
+    'C08/Model.v hand-written model of the proximal / gradient / _call bodies and of the operator overloads, tied to /repo by '
+    'the in-Coq correspondence on random trees (class tree of the conjugates is compared, not only values); the convex_conj '
+    'rules themselves are regenerated from source and cconj is PROVED to satisfy them (cconj_generated)',
     'np.sqrt is a parameter of the model (executed as a 30-digit rational approximation exact on perfect squares; '
-    'in proofs any function with sqrtf(a)^2 = a, sqrtf(a) >= 0 on a >= 0)',
+    'in proofs any function with sqrtf(a)^2 = a, sqrtf(a) >= 0 on a >= 0); for value on sqrt-free trees and for cconj the '
+    'Q-run is PROVED to be the rational restriction of the R-model (C08/Transfer.v); for prox/grad and trees with a square '
+    'root the Q/R link of the polymorphic definitions is assumed',
     'KullbackLeibler pairs, GroupL1Norm pair, NuclearNorm pair, general-p LpNorm, QuadraticForm with a matrix '
     'operator: not modelled, probed only',
 ]
@@ -101,6 +112,14 @@ def gen_space(rng, allow_prod=True, small=False):
         ha, hb = rng.choice([0.5, 1.0, 2.0]), rng.choice([0.5, 1.0, 0.25])
         return Sp(k, odl.uniform_discr([0, 0], [a * ha, b * hb], [a, b]), [ha * hb] * (a * b),
                   ctor='odl.uniform_discr([0, 0], [%r, %r], [%d, %d])' % (a * ha, b * hb, a, b))
+    if rng.random() < 0.4:
+        # power space X^d: GroupL1Norm and its ball live here
+        d = rng.choice([1, 2, 2, 3])
+        base = gen_space(rng, allow_prod=False, small=True)
+        sp = odl.ProductSpace(base.odl, d)
+        out = Sp('power', sp, base.w * d, parts=[base] * d, ctor='odl.ProductSpace(%s, %d)' % (base.ctor, d))
+        out.d, out.m = d, base.n
+        return out
     m = rng.choice([2, 2, 3])
     parts = [gen_space(rng, allow_prod=False, small=True) for _ in range(m)]
     sp = odl.ProductSpace(*[p.odl for p in parts])
@@ -143,10 +162,19 @@ def gen_leaf(rng, sp, S='S'):
     F = odl.solvers
     if sp.parts:
         choices = ['sep', 'sep', 'sep', 'l2sq', 'const', 'indzero', 'l2', 'ball2', 'quad', 'l1', 'ballinf']
+        if sp.kind == 'power':
+            choices += ['group', 'group', 'groupball', 'groupball']
     else:
         choices = ['l1', 'l2', 'linf', 'ball1', 'ball2', 'ballinf', 'l2sq', 'const', 'zero', 'indzero',
                    'huber', 'huber', 'quad', 'quad']
     k = rng.choice(choices)
+    if k == 'sep' and len(sp.parts) < 2:
+        k = 'l2sq'            # SeparableSum of a single functional has no FSep2 counterpart
+    if k in ('group', 'groupball'):
+        b = (k == 'group')
+        obj = F.GroupL1Norm(sp.odl, 2) if b else F.IndicatorGroupL1UnitBall(sp.odl, 2)
+        return Node(obj, '(cGroup %d %d %s)' % (sp.d, sp.m, C.b(b)),
+                    'F.%s(%s, 2)' % ('GroupL1Norm' if b else 'IndicatorGroupL1UnitBall', S), True)
     if k == 'sep':
         subs = []
         for i, p in enumerate(sp.parts):
@@ -338,6 +366,10 @@ def pyshape(f):
     D = odl.solvers.functional.default_functionals
     if isinstance(f, FF.BregmanDistance):
         return pyshape(f._BregmanDistance__bregman_dist)
+    if isinstance(f, D.GroupL1Norm):
+        return [17]
+    if isinstance(f, D.IndicatorGroupL1UnitBall):
+        return [18]
     if isinstance(f, D.LpNorm):
         return [0]
     if isinstance(f, D.IndicatorLpUnitBall):
@@ -407,6 +439,8 @@ def make_case(sp, node, x, y, sigma):
         gcell['g'] = f.gradient(X)
         return gcell['g']
     grad = obs_vec(sp, _g)
+    if 'cGroup' in node.coq:
+        grad = 'IVSkip'           # the gradient of the group pair is not modelled
     if 'g' in gcell and fc is not None and grad.startswith('(IVec'):
         cgval = obs_val(lambda: fc(gcell['g']))
     else:
@@ -490,8 +524,26 @@ def chk_grad_eq(f, x):
         a = float(f(x))
         b = float(fc(g))
         if b == np.inf:
-            # rounding guard: the gradient of a norm sits on the unit sphere up to rounding
-            b = float(fc(g * (1 - 1e-9)))
+            # rounding guard: the gradient of a norm sits on the boundary of dom f* up to rounding (also after
+            # translations / scalings of the argument): accept the best finite value within 1e-9 of g
+            gf = _flatten(g)
+            scale = 1e-9 * (1.0 + float(np.max(np.abs(gf))) if gf.size else 1.0)
+            cands = [g * (1 - 1e-9), g * (1 + 1e-9)]
+            for i in range(gf.size):
+                for sgn in (1.0, -1.0):
+                    e = np.zeros(gf.size)
+                    e[i] = sgn * scale
+                    cands.append(g + _unflatten(g.space, e))
+            vals = []
+            for c in cands:
+                try:
+                    v = float(fc(c))
+                    if np.isfinite(v):
+                        vals.append(v)
+                except Exception:  # noqa
+                    pass
+            if vals:
+                b = min(vals, key=lambda v: abs(a + v - float(x.inner(g))))
     except _SKIP:
         return None, 'not evaluable'
     except ValueError as e:
@@ -504,6 +556,18 @@ def chk_grad_eq(f, x):
     if not np.isfinite(a):
         return None, 'f(x) infinite'
     return bool(abs(a + b - r) <= 1e-7 * _scale(a, b, r)), 'f(x)=%r f*(g)=%r <x,g>=%r' % (a, b, r)
+
+
+def _unflatten(space, arr):
+    import odl
+    if isinstance(space, odl.ProductSpace):
+        out, k = [], 0
+        for sp_i in space:
+            n_i = sp_i.size
+            out.append(_unflatten(sp_i, arr[k:k + n_i]))
+            k += n_i
+        return space.element(out)
+    return space.element(np.asarray(arr).reshape(space.shape))
 
 
 def _flatten(el):
